@@ -29,6 +29,7 @@ ASSUMPTIONS = [
     "interned strings, core chunks and the content of the range cache are excluded from 'indistinguishable' (property text)",
 ]
 
+PRE = "Open Scope string_scope."
 MODS = ["good", "bad", "missing", "syn", "nest"]
 W_NAMES = ["top", "nested1", "nested2", "nested3", "fiber", "try_finally", "catch", "finally", "finally_ret", "classdef",
            "classdef_nested", "capture", "builtin_in_try"]
@@ -188,15 +189,39 @@ def impl_records(rec):
     return res
 
 
+MSG_CODE = {}   # hex of a message -> "#index" (ReuseSpec.msg_table, read from Coq once per run)
+MSG_TEXT = {}   # "#index" -> text
+
+
+def load_msg_table():
+    v = yvlib.coq_eval(["YV:ReuseSpec"], ["show_msg_table"], tag="C15msgs", preamble=PRE)[0]
+    if v:
+        for i, h in enumerate(v.split(",")):
+            MSG_CODE[h] = "#%d" % i
+            MSG_TEXT["#%d" % i] = yvlib.unhx(h).decode()
+    return bool(v)
+
+
 def fmt_obs(r):
     res = r["res"] or "none"
     if res.startswith("err:"):
-        res += ":" + (r["msgs"][0] if r["msgs"] else "")
+        m0 = r["msgs"][0] if r["msgs"] else ""
+        res += ":" + MSG_CODE.get(m0, m0)
+    elif res.startswith("panic:"):
+        res = "panic:" + MSG_CODE.get(res[6:], res[6:])
     return "out=%s;res=%s;loads=%s" % (",".join(r["out"]), res, ",".join(r["loads"]))
 
 
+CS_KEYS = ["he", "fiber", "frames", "stack", "handlers", "retpend", "errip", "classdef", "modules", "chunks", "core_chunks", "range_cache"]
+
+
+def fmt_cs(r):
+    cs = dict(kv.split("=") for kv in (r["cs"] or "").split(" ") if "=" in kv)
+    return " ".join(cs.get(k, "?") for k in CS_KEYS)
+
+
 def fmt_mech(r):
-    return fmt_obs(r) + ";cs=" + (r["cs"] or "")
+    return fmt_obs(r) + ";cs=" + fmt_cs(r)
 
 
 def ended(r):
@@ -216,16 +241,35 @@ def core_chunks(binary):
     return None
 
 
+RENDER = {}   # snippet (wire group tuple) -> harness item (hex source or RESET), from ReplLang.render
+
+
+def render_all(snips):
+    todo = sorted(set(snips) - set(RENDER))
+    if todo:
+        v = yvlib.coq_eval(["YV:ReplLang", "YV:ReuseSpec"], ['render_wire "%s"%%string' % wire(todo)], tag="C15render", preamble=PRE)[0]
+        items = v.split(" ") if v else []
+        if len(items) != len(todo):
+            raise RuntimeError("ReplLang.render failed")
+        RENDER.update(zip(todo, items))
+
+
 def coq_cases(hists, core, tag):
+    render_all([s for h in hists for s in h])
     terms = ['run_case %d "%s"%%string' % (core, wire(h)) for h in hists]
-    vals = yvlib.coq_eval(["YV:ReplLang", "YV:Reuse", "YV:ReuseSpec"], terms, shard_size=max(20, len(terms) // (2 * yvlib.NPROC) + 1), tag="C15" + tag)
+    vals = yvlib.coq_eval(["YV:ReplLang", "YV:Reuse", "YV:ReuseSpec"], terms, shard_size=max(10, len(terms) // (2 * yvlib.NPROC) + 1), tag="C15" + tag, preamble=PRE)
     res = []
-    for v in vals:
+    for h, v in zip(hists, vals):
         if v is None:
             res.append(None)
             continue
-        rnd, sp, me, kn = v.split("|")
-        res.append({"items": rnd, "spec": sp.split("#"), "mech": me.split("#"), "known": kn.split("#")})
+        rows = [r.split("~") for r in v.split("|")]
+        if len(rows) != len(h) or any(len(r) != 4 for r in rows):
+            res.append(None)
+            continue
+        names = {"-": "-", "I": "failed_import_poisons_module", "U": "open_upvalue_after_failed_run"}
+        res.append({"items": " ".join(RENDER[s] for s in h), "spec": [r[0] for r in rows],
+                    "mech": [(r[0] if r[1] == "=" else r[1]) + ";cs=" + r[2] for r in rows], "known": [names[r[3]] for r in rows]})
     return res
 
 
@@ -280,12 +324,23 @@ def readable(s):
             v = ",".join(yvlib.unhx(x).decode("utf-8", "replace") for x in v.split(",") if x)
         elif k == "res" and v.count(":") >= 2:
             a, b, c = v.split(":", 2)
-            v = "%s:%s:%s" % (a, b, yvlib.unhx(c).decode("utf-8", "replace") if c else "")
+            v = "%s:%s:%s" % (a, b, unmsg(c))
         elif k == "res" and v.startswith(("panic:", "diverged:")):
             a, c = v.split(":", 1)
-            v = "%s:%s" % (a, yvlib.unhx(c).decode("utf-8", "replace") if c else "")
+            v = "%s:%s" % (a, unmsg(c))
+        elif k == "cs":
+            v = " ".join("%s=%s" % kv for kv in zip(CS_KEYS, v.split(" ")))
         parts.append("%s=%s" % (k, v))
     return ";".join(parts)
+
+
+def unmsg(c):
+    if c in MSG_TEXT:
+        return MSG_TEXT[c]
+    try:
+        return yvlib.unhx(c).decode("utf-8", "replace") if c else ""
+    except Exception:
+        return c
 
 
 # ---- metamorphic oracles on the implementation alone ----
@@ -381,7 +436,7 @@ def reference_interpreter(ctx, hists, models, impl, limit):
         snips = "; ".join('"%s"' % x for x in m["items"].split(" "))
         terms.append("run_repl_case 2000 %s [%s]" % (mods, snips))
     try:
-        vals = yvlib.coq_eval(["YV:SpecScripts"], terms, shard_size=max(4, len(terms) // yvlib.NPROC + 1), tag="C15ref", timeout=400)
+        vals = yvlib.coq_eval(["YV:SpecScripts"], terms, shard_size=max(4, len(terms) // yvlib.NPROC + 1), tag="C15ref", timeout=400, preamble=PRE)
     except Exception as e:  # the reference interpreter belongs to other owners: never fail on it
         ctx.notes.append("reference interpreter evaluation failed: %r" % (e,))
         return 0
@@ -499,21 +554,25 @@ def run(ctx):
     if core is None:
         ctx.corr_broken.append("hook H5: no CS record from the harness")
         return
+    if not load_msg_table():
+        ctx.corr_broken.append("ReuseSpec.show_msg_table could not be evaluated")
+        return
     if ctx.replay_only:
         hists = [[tuple(int(x) for x in g.split(" ")) for g in ctx.replay_only["wire"].split(";")]]
     else:
         fails = [s for s in pool if is_failing(s)]
         # exhaustive: every failing snippet followed by every snippet, after a fixed block of definitions
         pre = [sn_var(0, 5), sn_fn(0, 0), sn_class(0, 7), sn_import(0)]
-        hists = [pre + [f, p, sn_call(0), sn_use(0), sn_usemod(0)] for f in fails for p in pool if quick is False or f[0] != 7 or len(f) == 2]
-        hists += [[f, p] for f in fails for p in pool]
+        hists = [pre + [f, p, sn_call(0), sn_use(0), sn_usemod(0)] for f in fails for p in pool if not quick or f[0] != 7 or len(f) == 2]
+        if not quick:
+            hists += [[f, p] for f in fails for p in pool]
         corpus_dir = os.path.join(yvlib.VERIF, "corpus", "C15")
         if os.path.isdir(corpus_dir):
             import json
             for fn in sorted(os.listdir(corpus_dir)):
                 with open(os.path.join(corpus_dir, fn)) as fh:
                     hists.append([tuple(int(x) for x in g.split(" ")) for g in json.load(fh)["wire"].split(";")])
-        hists += [gen_history(rng, pool, 8) for _ in range(600 if quick else 12000)]
+        hists += [gen_history(rng, pool, 8) for _ in range(400 if quick else 8000)]
     models = coq_cases(hists, core, "hist")
     mods_items = next((m for m in models if m), None)
     if mods_items is None:
@@ -521,7 +580,7 @@ def run(ctx):
         return
     mods_items = " ".join("%s=%s" % (hx(n), hx(s)) for n, s in zip(["good", "bad", "syn", "nest"], MOD_SRC))
     # the module sources used here are the ones ReplLang.render_mods states
-    rm = yvlib.coq_eval(["YV:ReplLang"], ["render_mods"], tag="C15mods")[0]
+    rm = yvlib.coq_eval(["YV:ReplLang"], ["render_mods"], tag="C15mods", preamble=PRE)[0]
     if rm != mods_items:
         ctx.corr_broken.append("module sources of tools/props/C15.py differ from ReplLang.render_mods")
     nontriv = set()
